@@ -142,8 +142,9 @@ case_s = st.fixed_dictionaries({
 })
 
 
-def _control(ctx, role, case, chain_sel):
-    """honest script, same setting: 'ok' | 'inconclusive'; a failed control raises through ctx.check (unless that key is a known finding)"""
+def _control(ctx, role, case, chain_sel, judge=False, key=None):
+    """honest script, same setting: 'ok' | 'inconclusive' | 'failed'.  For C09 a failed control is only counted (judge=False: the case is
+    left unjudged); C08's interop13 sub-check passes judge=True and reports it."""
     ctl = _run(ctx, role, "honest", case, chain_sel, "attacker", "wrong-key", control=True)
     if ctl["setup"] is None or ctl["setup"][:2] != ("setup", "ok"):
         raise AssertionError("library endpoint set-up failed: %r" % (ctl["setup"],))
@@ -161,12 +162,26 @@ def _control(ctx, role, case, chain_sel):
              ident=["honest", role, chain_sel, case["seed"], case["inst"], case["depth"], case["pad"], case["cr"]], sample=dict(case, beh="honest"))
     if not ok:
         ctx.note("control-failed")
-    ctx.check(ok, "honest scripted TLS 1.3 peer does not interoperate with the library %s (precondition of the check, not a C09 verdict): %s; case %r"
-              % (role, _brief(ctl), case), "scripted13/control/%s" % role)
-    if not ok:
+        ctx.note("control-failed/" + role)
+        if judge:
+            ctx.check(False, "honest scripted TLS 1.3 peer (independent pure-Python implementation) and the library %s do not interoperate: %s; case %r"
+                      % (role, _brief(ctl), case), key or ("interop13/%s" % role))
         return "failed"
     ctx.note("control-passed/" + role)
     return "ok"
+
+
+def register_interop(P, quick=700, thorough=16000):
+    """for C08: the library against an independent honest TLS 1.3 implementation, both roles, with / without client authentication"""
+    icase = st.fixed_dictionaries({"role": st.sampled_from(ROLES), "seed": st.integers(0, 1 << 20), "inst": st.integers(0, 3), "depth": st.integers(0, 1),
+                                   "pad": st.integers(0, 96), "cr": st.sampled_from((0, 0, 1, 2)), "chain": st.sampled_from(CHAINS)})
+
+    @P.sub("interop13", icase, quick=quick, thorough=thorough, chunk=40)
+    def interop13(case, ctx):
+        """library endpoint against the independent pure-Python TLS 1.3 implementation (honest): handshake completes, Finished / CertificateVerify verify, data both ways"""
+        shim().freeze_time(pki.T0)
+        _control(ctx, case["role"], case, case["chain"], judge=True, key="interop13/%s" % case["role"])
+    return interop13
 
 
 def register(P, quick=264, thorough=4800):
